@@ -77,6 +77,11 @@ const EventDidNotMatch = -1
 func (satisfier *CatchEventSatisfier) Satisfy(ev event.IEvent) (matched bool, chain int) {
 	chain = EventDidNotMatch
 	for i := range satisfier.eventDefinitionInstances {
+		// a definition the builder had no instance for (a builder may answer nil for
+		// definitions it does not know): no event matches it
+		if satisfier.eventDefinitionInstances[i] == nil {
+			continue
+		}
 		if ev.MatchesEventInstance(satisfier.eventDefinitionInstances[i]) {
 			if !satisfier.ParallelMultiple() || satisfier.len == 1 {
 				chain = 0
